@@ -513,6 +513,20 @@ def _data_text(hexs):
     return "".join(chr(c) if 32 <= c < 127 and c not in (34, 92) else "\\%02x" % c for c in b)
 
 
+def wat_name(s):
+    """Contents of a WAT string literal for the name s (spec 6.3.3): '"' and backslash escaped, control characters as \\hh
+    escapes of their UTF-8 bytes, everything else - non-ASCII included - as is."""
+    out = []
+    for ch in s:
+        if ch in '"\\':
+            out.append("\\" + ch)
+        elif ord(ch) < 32 or ord(ch) == 127:
+            out.append("".join("\\%02x" % b for b in ch.encode("utf-8")))
+        else:
+            out.append(ch)
+    return "".join(out)
+
+
 def to_wat(desc, folded=False, style=0, inline_exports=False, names=0, cond_names=True):
     """WAT text of the module.  style: 0 signed decimal ints, 1 unsigned spelling of negative
     i32 constants, 2 hex integers.  inline_exports: `(func (export "n") ...)` abbreviations for
@@ -532,11 +546,11 @@ def to_wat(desc, folded=False, style=0, inline_exports=False, names=0, cond_name
     fi = gi = 0
     for im in desc.get("imports", []):
         if im["kind"] == "func":
-            L.append('  (import "%s" "%s" (func%s (type %d)))' % (im["mod"], im["name"], " " + N0.func(fi) if names else "", im["type"]))
+            L.append('  (import "%s" "%s" (func%s (type %d)))' % (wat_name(im["mod"]), wat_name(im["name"]), " " + N0.func(fi) if names else "", im["type"]))
             fi += 1
         else:
             gt = "(mut %s)" % im["vt"] if im["mut"] else im["vt"]
-            L.append('  (import "%s" "%s" (global%s %s))' % (im["mod"], im["name"], " " + N0.glob(gi) if names else "", gt))
+            L.append('  (import "%s" "%s" (global%s %s))' % (wat_name(im["mod"]), wat_name(im["name"]), " " + N0.glob(gi) if names else "", gt))
             gi += 1
     nfi = n_func_imports(desc)
     ngi = n_global_imports(desc)
@@ -562,7 +576,7 @@ def to_wat(desc, folded=False, style=0, inline_exports=False, names=0, cond_name
         if names:
             head += " " + N.func(nfi + i)
         for n in inl.get(i + nfi, []):
-            head += ' (export "%s")' % n
+            head += ' (export "%s")' % wat_name(n)
         head += " (type %d)" % f["type"]
         if f["locals"]:
             if names:
@@ -581,7 +595,7 @@ def to_wat(desc, folded=False, style=0, inline_exports=False, names=0, cond_name
         if inline_exports and e["kind"] == "func" and e["idx"] >= nfi:
             continue
         ref = N0.func(e["idx"]) if e["kind"] == "func" else N0.glob(e["idx"]) if e["kind"] == "global" else str(e["idx"])
-        L.append('  (export "%s" (%s %s))' % (e["name"], e["kind"], ref))
+        L.append('  (export "%s" (%s %s))' % (wat_name(e["name"]), e["kind"], ref))
     if desc.get("start") is not None:
         L.append("  (start %s)" % N0.func(desc["start"]))
     for e in desc.get("elems", []):
